@@ -111,6 +111,15 @@ def elem_position_subst(I, it: Node, within: Node):
     functions of the position k:  IterElem(range(a, b)) -> k + a,  IterIdx(x) -> k"""
     sub = {}
     for x in walk([within]):
+        rv = _reversed_range(x.args[0]) if x.op == "IterElem" and x.args else None
+        if rv is not None:
+            # the k-th element of reversed(range(a, b)) is b - 1 - k
+            hi = affine(I, rv.args[0]) if len(rv.args) == 1 else affine(I, rv.args[1])
+            if hi is not None:
+                co = dict(hi[0])
+                co[K] = Fraction(-1)
+                sub[id(x)] = (co, hi[1] - 1)
+            continue
         if x.op == "IterElem" and x.args[0].op == "Range":
             r = x.args[0]
             if len(r.args) == 1:
@@ -141,8 +150,19 @@ def position(I, idx: Node, it: Node):
     return (co.get(K, Fraction(0)), c)
 
 
+def _reversed_range(n: Node):
+    """the Range node r if n is reversed(r) with r counting up in steps of one, else None"""
+    if n.op == "Call" and n.args and n.args[0].op == "Ext" and n.args[0].attr == "builtins.reversed" and \
+            len(n.args) == 2 and n.args[1].op == "Range" and len(n.args[1].args) in (1, 2):
+        return n.args[1]
+    return None
+
+
 def range_count(I, r: Node):
     """number of elements of a Range node as an affine form, or None"""
+    rv = _reversed_range(r)
+    if rv is not None:
+        r = rv              # as many elements as the range it walks backwards
     if r.op != "Range":
         return None
     if len(r.args) == 1:
